@@ -243,7 +243,7 @@ EncSysV(v, le) == W4(v.nb, le) \o W4(v.nc, le) \o CatAll([b \in 1..v.nb |-> W4(v
 (* ------------------------------- writer -------------------------------- *)
 \* bloom geometries for the configurations (cfg files cannot write tuples): <<words, shift>>
 BloomsTiny == {<<1, 5>>}
-BloomsQuick == {<<1, 0>>, <<2, 5>>, <<1, 31>>, <<2, 31>>}
+BloomsQuick == {<<1, 0>>, <<2, 5>>, <<3, 6>>, <<1, 31>>, <<2, 31>>}      \* 3 words: any size is valid, not only powers of two
 BloomsFull == {<<1, 0>>, <<2, 0>>, <<1, 5>>, <<2, 5>>, <<3, 6>>, <<1, 31>>, <<2, 31>>}
 ClsLe == {<<32, TRUE>>, <<32, FALSE>>, <<64, TRUE>>, <<64, FALSE>>}
 ClsLeTwo == {<<32, FALSE>>, <<64, TRUE>>}
